@@ -108,6 +108,23 @@ J_ChildrenFirstT(h, reach, s) ==
                          \A y \in reach[s[i]] : HasHistIn(h, y) => \E j \in 1 .. i - 1 : s[j] = y
 J_ChildrenFirst(h, s) == J_ChildrenFirstT(h, ReachTable(h), s)
 
+\* ---- the same two graph judgements in a form that stays cheap on graphs with hundreds of relations
+\* (deep chains / deep DAGs).  ChildFirstLemmas.tla has TLC check, for every graph of the small families and
+\* every sequence over its ids, that they are equal to Acyclic / J_ChildrenFirst above.
+\* Acyclic: peel off, round by round, the relations all of whose references are already peeled (Kahn); nothing
+\* is left iff there is no cycle.  References that all point to larger ids cannot form a cycle (shortcut).
+RECURSIVE Peel(_, _, _)
+Peel(adj, rem, n) == LET free == {x \in rem : adj[x] \cap rem = {}} IN
+                     IF free = {} \/ n = 0 THEN rem ELSE Peel(adj, rem \ free, n - 1)
+AcyclicA(adj) == (\A x \in DOMAIN adj : \A y \in adj[x] : y > x) \/ Peel(adj, DOMAIN adj, Cardinality(DOMAIN adj)) = {}
+AcyclicK(h) == AcyclicA(Adj(h))
+\* ChildrenFirst through *direct* references only: if every emitted relation is preceded by each of its direct
+\* references that has a history, then by induction along a reference path (every inner relation of a path has
+\* a history, or it would reference nothing) it is preceded by every relation reachable from it - and conversely.
+J_ChildrenFirstD(h, adj, acyc, s) ==
+   acyc => \A i \in 1 .. Len(s) : s[i] \in DOMAIN adj =>
+              \A y \in adj[s[i]] : HasHistIn(h, y) => \E j \in 1 .. i - 1 : s[j] = y
+
 (* ------------------------------------------------------------------------ *)
 (* The walk as a pure function (second, independent formulation; the Model  *)
 (* below is checked to agree with it: EmitsPrefixOfRunOut).                 *)
